@@ -79,6 +79,8 @@ def run(rec, cfg):
     rng = cfg.rng("c12")
     corp = WT.corpus()
     W8.two_parsers(rec, rng, corp, "C12", cfg.scale(6, 200))
+    if cfg.shard == 2 % cfg.nshards:
+        W8.marathon(rec, rng, "C12")
     if cfg.shard == 1 % cfg.nshards:
         deep_repeat(rec)
     # one parser per shard lives through every history of the shard (thousands of calls, hundreds
@@ -118,6 +120,12 @@ def run(rec, cfg):
 def replay(rec, cfg, w):
     if w.get("deep_repeat"):
         deep_repeat(rec)
+        return
+    if w.get("marathon") or any(isinstance(h, (list, tuple)) and len(h) > 1 and str(h[1]).endswith("w + 1") for h in (w.get("history") or [])[-50:]):
+        from ..workloads import histories as _W9
+
+        MP.attach_parser("C12", {"grammar", "closure", "history"})
+        _W9.marathon(rec, cfg.rng("replay-marathon"), "C12")
         return
     if w.get("two_parsers"):
         from ..workloads import histories as _W8
